@@ -98,7 +98,7 @@ EndRound ==
   /\ \A p \in AllPorts : (ns[p[1]].pst[p[2]] = "M" /\ p[1] \notin silent) => didA[p]
   /\ net = {}
   /\ \A p \in AllPorts : (armed[p] /\ p[1] \notin silent) => rc[p] < 2 * T
-  /\ rc' = [p \in AllPorts |-> IF armed[p] THEN rc[p] + 1 ELSE rc[p]]
+  /\ rc' = [p \in AllPorts |-> IF armed[p] /\ p[1] \notin silent THEN rc[p] + 1 ELSE rc[p]]      \* a silenced node's timers do not matter any more (and must not count for ever)
   /\ didB' = [n \in Nodes |-> FALSE] /\ didA' = [p \in AllPorts |-> FALSE]
   /\ stable' = IF stable > K THEN stable ELSE stable + 1
   /\ hist' = (IF KeepHist THEN Append(hist, [e |-> "end"]) ELSE hist)
